@@ -258,6 +258,24 @@ class _Alloc:
             inner = ch[1:-1]
             rng.shuffle(inner)
             ch = ch[:1] + inner + (ch[-1:] if k > 1 else [])
+        elif policy == "inner2_permuted":
+            # as above, but the first two and the last two sectors stay in place: also the run of 'middle' sectors of a
+            # whole-file read starts and ends where an ascending run would (not in POLICIES: chosen explicitly)
+            fs = free
+            ch = None
+            for a in range(len(fs) - k + 1):
+                if fs[a + k - 1] - fs[a] == k - 1:
+                    ch = fs[a:a + k]
+                    break
+            if ch is None:
+                ch = fs[:k]
+            if k >= 6:
+                inner = ch[2:-2]
+                for _ in range(4):
+                    rng.shuffle(inner)
+                    if inner != sorted(inner):
+                        break
+                ch = ch[:2] + inner + ch[-2:]
         elif policy == "ascending":
             ch = sorted(rng.sample(free, k))
         elif policy == "descending":
